@@ -16,6 +16,7 @@ pub struct TimerWake {
     id: usize,
     deadline: Instant,
     waker: Waker,
+    cancelled: Arc<Mutex<bool>>,
 }
 
 impl PartialEq for TimerWake {
@@ -51,10 +52,16 @@ pub struct Sleep {
     deadline: Option<Instant>,
     duration: Duration,
     periodic_task_sender: std::sync::mpsc::Sender<TimerMessage>,
+    cancelled: Arc<Mutex<bool>>,
 }
 
 impl Drop for Sleep {
     fn drop(&mut self) {
+        // The cancel message is processed asynchronously by the timer thread. Mark the sleep as
+        // cancelled synchronously so that no wake can happen once drop has returned.
+        if let Ok(mut cancelled) = self.cancelled.lock() {
+            *cancelled = true;
+        }
         let _ = self
             .periodic_task_sender
             .send(TimerMessage::Cancel(self.id));
@@ -105,6 +112,7 @@ impl Future for Sleep {
                 id: this.id,
                 deadline,
                 waker: cx.waker().clone(),
+                cancelled: this.cancelled.clone(),
             };
             this.periodic_task_sender
                 .send(TimerMessage::Wake(timer_wake))
@@ -150,7 +158,13 @@ impl TimerHeap {
         if let Some(t) = self.heap.pop() {
             debug_assert!(t.deadline < Instant::now());
             trace!("Notify timer with id {}", t.id);
-            t.waker.wake();
+            // Hold the lock while waking so that a concurrent drop of the sleep either happens
+            // before (no wake) or returns only after the wake is done
+            if let Ok(cancelled) = t.cancelled.lock() {
+                if !*cancelled {
+                    t.waker.wake_by_ref();
+                }
+            }
         }
     }
 
@@ -183,6 +197,7 @@ impl TimerHandle {
             deadline: None,
             duration,
             periodic_task_sender: inner_lock.periodic_task_sender.clone(),
+            cancelled: Arc::new(Mutex::new(false)),
         }
     }
 }
@@ -274,6 +289,7 @@ mod tests {
             deadline: None,
             duration: Duration::MAX,
             periodic_task_sender: tx,
+            cancelled: Arc::new(Mutex::new(false)),
         };
         // This should not panic
         sleep.reset();
